@@ -554,15 +554,19 @@ class Packet(object):
         if length > len(datagram):
             raise PacketError("length error")
 
-        if key and hdr.pkt_type not in (PacketType.CLIENT_HELLO, PacketType.SERVER_HELLO):
-            # packet is encrypted, decrypt using the given key
+        if key:
+            # once a key is set every packet must be encrypted, decrypt using the given key
             length += PacketHeader.TAG_SIZE
             iv = datagram[:PacketHeader.IV_SIZE]
             aad = datagram[:PacketHeader.SIZE]
             data = datagram[PacketHeader.SIZE:length]
             pkt.msg = crypto.decrypt_gcm(key, iv, aad, data)
         else:
-            # packet is not encrypted: validate the crc
+            # packet is not encrypted: only a single handshake hello
+            # may be received before a key is set
+            if hdr.pkt_type not in (PacketType.CLIENT_HELLO, PacketType.SERVER_HELLO) or hdr.count > 1:
+                raise PacketError("unencrypted packet")
+            # validate the crc
             data = datagram[:length]
             crc_actual = crypto.crc32(data)
             crc_expected, = struct.unpack(">L", datagram[length:length+PacketHeader.CRC_SIZE])
